@@ -33,4 +33,38 @@ def mrange (c1 r1 c2 r2 : Nat) : Grid.MObj := ⟨⟨c1, r1, c2, r2⟩, ⟨c1, r1
 def storedAfterFormattedRead (v norm : Val) : Val :=
   if Facts.C04.getValueFromWritesCV then norm else v
 
+/-! ## shared strings read from a temporary file (`getFromStringItem` / `loadStringItems`) -/
+
+/-- one `<si>`: an optional `<t>` and the `<t>` of its runs -/
+structure SI where
+  t : Option Val
+  runs : List Val
+  deriving DecidableEq, Repr
+
+/-- `xlsxSI.String()` (texts free of `_xHHHH_` escapes) -/
+def SI.str (x : SI) : Val := x.t.getD [] ++ x.runs.flatten
+
+/-- `decoder.DecodeElement(&si, …)`: with a target declared inside the loop (regenerated fact
+`sharedStringItemFresh`) the result is the item; into a reused target whose runs were reset, an
+item without `<t>` keeps the text the target held -/
+def decodeSI (target x : SI) : SI :=
+  if Facts.C04.sharedStringItemFresh then x
+  else ⟨match x.t with | some v => some v | none => target.t, x.runs⟩
+
+/-- `loadStringItems`: the text written to the temporary file for every item, in order -/
+def loadStringItems : SI → List SI → List Val
+  | _, [] => []
+  | tgt, x :: xs => (decodeSI tgt x).str :: loadStringItems (decodeSI tgt x) xs
+
+/-- the shared strings as a workbook opened with the part in a temporary file shows them -/
+def spillStrings (items : List SI) : List Val := loadStringItems ⟨none, []⟩ items
+
+/-- `GetCellFormula` stores the expanded shared formula in the dependent cell -/
+def getCellFormulaMemoises : Bool :=
+  Facts.C04.getterSharedWrites.contains "getCellFormula:c.F.Content"
+
+/-- `c.F.Content` of a dependent cell of a shared formula after `GetCellFormula` -/
+def formulaContentAfterRead (content expanded : Val) : Val :=
+  if getCellFormulaMemoises then expanded else content
+
 end XlModel.Readers
